@@ -248,6 +248,17 @@ func (r *checkRun) run() int {
 		}
 		r.reports = append(r.reports, rep)
 	}
+	if r.cfg.Derive == "frontend-unsupported" {
+		ov, checked := unsupportedOverrides(w)
+		rep := &FuncReport{Key: "cypher/frontend"}
+		if len(ov) == 0 {
+			rep.Obligations = append(rep.Obligations, &Obligation{Name: "cypher/frontend#derive.unsupported.not-overridden", Kind: "derive", Func: rep.Key, Result: "unsat", Solver: "structural", Src: fmt.Sprintf("%d declarations of unsupported-rule Enter methods, all on BaseVisitor", checked)})
+		}
+		for _, o := range ov {
+			rep.Obligations = append(rep.Obligations, &Obligation{Name: "cypher/frontend#derive.unsupported.overridden[" + o + "]", Kind: "derive", Func: rep.Key, Result: "refuted", Detail: o + " overrides (or removes) the error-reporting Enter method of an unsupported grammar rule"})
+		}
+		r.reports = append(r.reports, rep)
+	}
 	if r.cfg.Grammar {
 		g := checkGrammarLemma(r.repo)
 		rep := &FuncReport{Key: "cypher/grammar/Cypher.g4"}
